@@ -496,7 +496,7 @@ func runAgentCLI(args []string) {
 		select {
 		case <-done:
 			exited = true
-		case <-time.After(1500 * time.Millisecond):
+		case <-time.After(4 * time.Second): // a refusal is printed and the process exits within milliseconds
 			accepted = true
 			cmd.Process.Kill()
 			<-done
